@@ -954,6 +954,13 @@ func corpus() []desc {
 			c = append(c, desc{Op: "readmsg", Mk: "resp", Mode: "chunked", L: L, Wire: []byte("1\r\na\r\n" + tail)})
 		}
 	}
+	// the input ends inside the trailer section (io.ErrUnexpectedEOF) vs right after the last chunk line (io.EOF)
+	for _, tail := range []string{"0\r\n", "0\r\n\r", "0\r\nFoo: bar\r\n", "0\r\nFoo: bar\r\n\r", "0\r\nFoo", "0\r\n\r\n"} {
+		for _, mk := range []string{"req", "resp"} {
+			c = append(c, desc{Op: "readmsg", Mk: mk, Mode: "chunked", L: 64, Wire: []byte("5\r\nhello\r\n" + tail)})
+			c = append(c, desc{Op: "readmsg", Mk: mk, Mode: "chunked", L: 0, Wire: []byte(tail)})
+		}
+	}
 	// Content-Length far beyond anything, with and without a limit that catches it
 	c = append(c, desc{Op: "readmsg", Mk: "req", Mode: "fixed", L: 64, CL: 1 << 40, Wire: []byte("abc")})
 	c = append(c, desc{Op: "readmsg", Mk: "resp", Mode: "fixed", L: 64, CL: 1<<62 + 5, Wire: []byte("abc")})
